@@ -703,6 +703,26 @@ CLI = register(Stream(
           "violation; non-trivial = every case; distinct by the full line"),
     nontrivial=None))
 
+def gen_cliprint(tier, r):
+    """the command lines of the cli stream that print (--print[=N] in every spelling, with counting options, -q, -t):
+    what C15 says about the binary"""
+    out = []
+    for label, op in gen_cli(tier, r):
+        exp = op.split(" ")[-1]
+        f = exp.split(":")
+        if label == "print-threads" or (exp.startswith("exp=sieve:") and len(f) >= 5 and f[4] != "-"):
+            out.append((label if label == "print-threads" else "print-" + label, op))
+    return out
+
+CLIPRINT = Stream(
+    "cli", gen_cliprint,
+    rule=("cases = one run of the primesieve binary per argument vector containing -p / --print[=N] (all spellings, combined with "
+          "-c digits, -q, -t/--threads, -s, START STOP / -d forms, in random order): stdout must be exactly the lines the harness "
+          "oracle derives for the intended interval (ascending, one per line, decimal / '(a, b, ...)'), followed by the counts "
+          "the library returns when counting options are combined; includes printing with an explicit thread count over "
+          "intervals long enough for several worker pieces; non-trivial = every case; distinct by the full line"),
+    nontrivial=None)
+
 
 # --------------------------------------------------------------------------------------------
 # wheel / cross: the wheel layer of the sieve chain (Wheel::addSievingPrime, EratSmall/Medium/Big)
